@@ -211,6 +211,19 @@ func (c *FC) anchorOf(in ssa.Instruction) ssa.Instruction {
 	return in
 }
 
+// siteInFn: the instruction of fn itself through which `in` executes (in, or fn's call of
+// the helper that contains it).
+func (c *FC) siteInFn(in ssa.Instruction) ssa.Instruction {
+	owner := in.Parent()
+	if owner == c.fn || owner == nil {
+		return in
+	}
+	if sites := c.vof[owner]; len(sites) > 0 {
+		return sites[0].anchor
+	}
+	return in
+}
+
 func (c *FC) anchors(ins []ssa.Instruction) []ssa.Instruction {
 	var out []ssa.Instruction
 	seen := map[ssa.Instruction]bool{}
@@ -578,15 +591,57 @@ func (c *FC) successReturns() []ssa.Instruction {
 // effectSites lists instructions in fn at which a state, ledger or event effect
 // happens (directly or through module callees).
 func (c *FC) effectSites() []ssa.Instruction {
+	return c.expandSpliced(c.p.effectSitesOf(c.fn), func(h *ssa.Function) []ssa.Instruction { return c.p.effectSitesOf(h) })
+}
+
+// ledgerSites: bank / fiat-token-factory calls that move value (reads excluded).
+func (c *FC) ledgerSites() []ssa.Instruction {
+	return c.expandSpliced(c.p.ledgerSitesOf(c.fn), func(h *ssa.Function) []ssa.Instruction { return c.p.ledgerSitesOf(h) })
+}
+
+// expandSpliced: a site that is the call of a helper the cut engine walks through is
+// replaced by the helper's own sites (which the walk reaches exactly when they execute);
+// other sites stand as they are.
+func (c *FC) expandSpliced(sites []ssa.Instruction, inner func(h *ssa.Function) []ssa.Instruction) []ssa.Instruction {
 	var out []ssa.Instruction
-	for _, in := range c.p.effectSitesIn(c.fn, "W", "D", "EVENT") {
+	seen := map[ssa.Instruction]bool{}
+	add := func(in ssa.Instruction) {
+		if !seen[in] {
+			seen[in] = true
+			out = append(out, in)
+		}
+	}
+	for _, in := range sites {
+		expanded := false
+		if call, ok := in.(*ssa.Call); ok {
+			for _, sp := range c.p.splices(c.fn) {
+				if sp.Call == call {
+					for _, hin := range inner(sp.H) {
+						add(hin)
+					}
+					expanded = true
+				}
+			}
+		}
+		if !expanded {
+			add(in)
+		}
+	}
+	return out
+}
+
+// effectSitesOf lists instructions in fn at which a state, ledger or event effect happens
+// (directly or through module callees).
+func (p *Prog) effectSitesOf(fn *ssa.Function) []ssa.Instruction {
+	var out []ssa.Instruction
+	for _, in := range p.effectSitesIn(fn, "W", "D", "EVENT") {
 		out = append(out, in)
 	}
 	seen := map[ssa.Instruction]bool{}
 	for _, in := range out {
 		seen[in] = true
 	}
-	for _, in := range c.ledgerSites() {
+	for _, in := range p.ledgerSitesOf(fn) {
 		if !seen[in] {
 			seen[in] = true
 			out = append(out, in)
@@ -595,10 +650,9 @@ func (c *FC) effectSites() []ssa.Instruction {
 	return out
 }
 
-// ledgerSites: bank / fiat-token-factory calls that move value (reads excluded).
-func (c *FC) ledgerSites() []ssa.Instruction {
+func (p *Prog) ledgerSitesOf(fn *ssa.Function) []ssa.Instruction {
 	var out []ssa.Instruction
-	s := c.p.effects(c.fn)
+	s := p.effects(fn)
 	mutating := func(e Effect) bool {
 		return e.Kind == "LEDGER" && !strings.HasSuffix(e.Region, ".GetMintingDenom") && !strings.HasSuffix(e.Region, ".GetBalance")
 	}
@@ -611,7 +665,7 @@ func (c *FC) ledgerSites() []ssa.Instruction {
 		if ce.In == nil {
 			continue
 		}
-		for _, e := range c.p.closure(ce.Callee) {
+		for _, e := range p.closure(ce.Callee) {
 			if mutating(e) {
 				out = append(out, ce.In)
 				break
